@@ -85,6 +85,9 @@ func (p *Program) GlobalAccesses(pkg, name string) []Access {
 	}
 	g, _ := sp.Members[name].(*ssa.Global)
 	if g == nil {
+		g = renamedGlobal[pkg+"."+name] // carried on under another name (see globalCanon)
+	}
+	if g == nil {
 		return nil
 	}
 	visit := func(fn *ssa.Function) {
